@@ -172,7 +172,7 @@ def _recursive_repr(fillvalue='...'):
 
 
 def _is_auto_name(class_name, instance_name):
-    return re.match('^'+class_name+'[0-9]{5}$', instance_name)
+    return re.match('^'+class_name+'[0-9]{5}\\Z', instance_name)
 
 
 def _find_pname(pclass):
